@@ -105,6 +105,8 @@ HANDWRITTEN = [
     {"faults": {"0": {"2": ["raise", "ValueError", "big"]}}, "calls": [{"call": "reset_async"}, {"call": "reset_wait"}, {"call": "step_async"}, {"call": "step_wait"}, {"call": "close"}]},
     {"faults": {"1": {"1": ["raise", "KeyError", "big"]}, "0": {"1": ["raise", "KeyError", "big"]}}, "calls": [{"call": "reset_async"}, {"call": "reset_wait"}, {"call": "close"}]},
     {"faults": {"1": {"2": ["raise", "RuntimeError", "big"]}}, "calls": [{"call": "reset_async"}, {"call": "reset_wait"}, {"call": "set_attr"}, {"call": "close"}]},
+    {"faults": {"1": {"2": ["raise", "ValueError", "huge"]}}, "calls": [{"call": "reset_async"}, {"call": "reset_wait"}, {"call": "step_async"}, {"call": "step_wait"}, {"call": "close"}]},
+    {"faults": {"0": {"1": ["raise", "RuntimeError", "huge"]}}, "calls": [{"call": "reset_async"}, {"call": "reset_wait"}, {"call": "close"}]},
     # killed worker: mid-step, idle; then close
     {"faults": {"1": {"2": ["kill", ""]}}, "calls": [{"call": "reset_async"}, {"call": "reset_wait"}, {"call": "step_async"}, {"call": "step_wait"}, {"call": "close"}]},
     {"calls": [{"call": "reset_async"}, {"call": "reset_wait"}, {"call": "settle"}, {"call": "kill", "w": 0}, {"call": "step_async"}, {"call": "close"}]},
